@@ -3,7 +3,7 @@
 // generated values and writes the case file; -gen tabulates ByteSize/LengthBytes/GoReflectType/
 // String for all 256 data type codes into Gen/GenC04.v.
 //
-//	-prop C04:  fn 1 (t len v) -> (enc-outcome dec-outcome-of-the-produced-bytes)
+//	-prop C04:  fn 1 (t len v) -> (enc-outcome dec-outcome-of-the-produced-bytes pure)      pure: see encode
 //	            fn 2 (t #bytes) -> dec-outcome                      (arbitrary / malformed bytes)
 //	            fn 3 t -> (ByteSize LengthBytes reflect-kind name)
 //	            fn 4 (which arg) -> asetime helper result
@@ -11,8 +11,9 @@
 //	            fn 20, 21, 22: the package leg (values inside TDS_PARAMS / TDS_ROW with their formats), see pkgleg.go
 //	-gen may be repeated: a path named GenPkg.v receives the tables of the package layer (harness/pk.WriteGen), any
 //	other path the tables of Gen/GenC04.v
-//	-prop C05:  fn 1 (t len v ref) -> (enc-outcome dref) with ref = () or (#reference-bytes of the harness' own codec),
-//	            dref = () or the implementation's decode outcome of the reference bytes
+//	-prop C05:  fn 1 (t len v ref) -> (enc-outcome dref pure) with ref = () or (#reference-bytes of the harness' own codec),
+//	            dref = () or the implementation's decode outcome of the reference bytes, pure = (1 1) when a second
+//	            Bytes call on the SAME value object gave the same outcome and the value object is unchanged (see encode)
 //	            fn 4 (which arg) -> asetime helper result
 package main
 
@@ -41,17 +42,49 @@ var (
 
 // ---------------------------------------------------------------- running the implementation
 
-func encode(t asetypes.DataType, v val, n int) (o sx.T, bs []byte, ok bool) {
+// bytesOnce: one call of DataType.Bytes on the value object x. The result is copied at once, so that nothing a later
+// call does to a buffer it shares with the value object or with an earlier result can change what was observed.
+func bytesOnce(t asetypes.DataType, x interface{}, n int) (o sx.T, bs []byte, ok bool) {
 	defer func() {
 		if r := recover(); r != nil {
 			o, bs, ok = panicT, nil, false
 		}
 	}()
-	b, err := t.Bytes(binary.LittleEndian, v.goValue(), int64(n))
+	b, err := t.Bytes(binary.LittleEndian, x, int64(n))
 	if err != nil {
 		return errT, nil, false
 	}
+	b = append([]byte{}, b...)
 	return okT(sx.B(b)), b, true
+}
+
+var pureT = sx.L{sx.I(1), sx.I(1)}
+
+// encode: the value object is built ONCE and handed to DataType.Bytes TWICE; it is rendered (renderObj) before the first
+// call, after the first and after the second call. o, bs, ok describe the FIRST call. pure is the observation that
+// encoding is a function of the value which leaves the value alone:
+//
+//	(same unchanged)                       same = 1: the second call had the outcome of the first (same bytes / error / panic),
+//	                                       unchanged = 1: the value object renders after both calls as it did before
+//	(same unchanged outcome2 after1 after2) when one of them is 0: the second outcome and the renderings, for the report
+func encode(t asetypes.DataType, v val, n int) (o sx.T, bs []byte, ok bool, pure sx.T) {
+	pure = pureT
+	defer func() {
+		if r := recover(); r != nil { // building the value object failed (harness)
+			o, bs, ok = panicT, nil, false
+		}
+	}()
+	x := v.goValue()
+	before := sx.Str(renderObj(v, x))
+	o, bs, ok = bytesOnce(t, x, n)
+	after1 := renderObj(v, x)
+	o2, _, _ := bytesOnce(t, x, n)
+	after2 := renderObj(v, x)
+	same, unchanged := sx.Str(o) == sx.Str(o2), before == sx.Str(after1) && before == sx.Str(after2)
+	if !same || !unchanged {
+		pure = sx.L{sx.Bool(same), sx.Bool(unchanged), o2, after1, after2}
+	}
+	return o, bs, ok, pure
 }
 
 func decode(t asetypes.DataType, bs []byte) (o sx.T) {
@@ -73,20 +106,20 @@ func input(t asetypes.DataType, n int, v val) sx.T {
 
 // value case: both properties
 func value(t asetypes.DataType, n int, v val, tag string) {
-	eo, bs, ok := encode(t, v, n)
+	eo, bs, ok, pure := encode(t, v, n)
 	if prop == "C04" {
 		var do sx.T = sx.L{}
 		if ok {
 			do = decode(t, bs)
 		}
-		out.Case(1, input(t, n, v), sx.L{eo, do}, tag)
+		out.Case(1, input(t, n, v), sx.L{eo, do, pure}, tag)
 		return
 	}
 	var ref, dref sx.T = sx.L{}, sx.L{}
 	if rb, rok := refEncode(t, n, v); rok {
 		ref, dref = sx.L{sx.B(rb)}, decode(t, rb)
 	}
-	out.Case(1, sx.L{sx.I(int64(t)), sx.I(int64(n)), v.tree(), ref}, sx.L{eo, dref}, tag)
+	out.Case(1, sx.L{sx.I(int64(t)), sx.I(int64(n)), v.tree(), ref}, sx.L{eo, dref, pure}, tag)
 }
 
 // decode-only case (C04 fn 2)
@@ -100,9 +133,9 @@ func rawDecode(t asetypes.DataType, bs []byte, tag string) {
 // goSide: thorough tier, value checked on the Go side only against the harness' reference codec (which the Coq
 // reference checks on every case that goes through the model): bytes equal, decode re-encodes to the same bytes
 func goSide(t asetypes.DataType, n int, v val) bool {
-	_, bs, ok := encode(t, v, n)
+	_, bs, ok, pure := encode(t, v, n)
 	rb, rok := refEncode(t, n, v)
-	if !ok || !rok || string(bs) != string(rb) {
+	if !ok || !rok || string(bs) != string(rb) || sx.Str(pure) != sx.Str(pureT) {
 		return false
 	}
 	ok = false
